@@ -44,6 +44,11 @@ func main() {
 		rules.DebugProto(c, os.Args[2:])
 		return
 	}
+	if os.Args[1] == "debug-siblings" {
+		c := core.NewCtx("DBG", "quick")
+		rules.DebugSiblings(c)
+		return
+	}
 	if os.Args[1] == "debug-prov" {
 		c := core.NewCtx("DBG", "quick")
 		c.Load(os.Args[2:]...)
